@@ -279,6 +279,17 @@ def adapt_argv(argv, wd):
     return res
 
 
+def read_into(force_field, itp_path, name):
+    """MetaMolecule.from_itp into a force field the caller keeps (it may already hold a block of that name: the generating library's
+    residue block, or a molecule read there before) -> {"read": molecule, "rg": residue graph} or {"read_error": ...}"""
+    from polyply import MetaMolecule
+    try:
+        mm = MetaMolecule.from_itp(force_field, str(itp_path), name)
+        return {"read": project_molecule(mm.molecule, mm.mol_name, nrexcl=force_field.blocks[name].nrexcl), "rg": project_resgraph(mm)}
+    except Exception as exc:
+        return {"read_error": "MetaMolecule.from_itp (force field in use): %s: %s" % (type(exc).__name__, exc)}
+
+
 def observe(argv, wd):
     """run the command in directory wd and read the output back; one record of the I->S trace"""
     rec = run_command(adapt_argv(argv, wd), wd)
